@@ -8,6 +8,7 @@ import ALV.Lemmas.C04PS
 import ALV.Lemmas.C04Sparse
 import ALV.Lemmas.C04Pipeline
 import ALV.Lemmas.C04Hist
+import ALV.Lemmas.C04Cx
 import ALV.Common.Audit
 
 set_option linter.unusedSectionVars false
@@ -558,6 +559,209 @@ example := hist_memory_is_snapshot (K := ℚ)
       subst ht
       simp [hm.1])
 
+/-! ### C04.12 coefficient kinds and call shapes: the special cases of the string building are neutral -/
+
+/-- **C04.12a** (`unit_test_sound_iff`): let the string building decide "this coefficient is unitary,
+leave the multiplication out and keep only its sign" with ANY test `u` (the code: `c == 1 or c == -1`;
+a refactoring: `abs(c) == 1`).  The summand it writes has the value of the product `c·d_k`
+(numerator) resp. `−c·m_k` (feedback) in every environment IF AND ONLY IF `u c → c = 1 ∨ c = −1`.
+So the test of the code is the weakest sound one, and a test by modulus is unsound in every field
+with a unit-modulus element other than ±1 (ℚ(i): `1j`). -/
+theorem unit_test_sound_iff (u : K → Bool) (c : K) :
+    ((∀ (e : Env K) (k : Nat), evalSum e (numAtomsBy u k [c]) = c * e.get (.d k)) ∧
+     (∀ (e : Env K) (k : Nat), evalSum e (denAtomsBy u k [c]) = -(c * e.get (.m k))))
+    ↔ (u c = true → c = 1 ∨ c = -1) := by
+  constructor
+  · rintro ⟨hn, _⟩ hu
+    by_cases h1 : c = 1
+    · exact Or.inl h1
+    · right
+      have := hn ⟨[], [1]⟩ 0
+      rw [evalSum_numAtomsBy_one] at this
+      simp [hu, h1, Env.get] at this
+      exact this.symm
+  · intro h
+    constructor <;> intro e k
+    · rw [evalSum_numAtomsBy_one]
+      by_cases hu : u c = true
+      · rcases h hu with rfl | rfl
+        · simp [hu]
+        · simp only [hu, if_true]
+          split_ifs with h1
+          · rw [h1]; simp
+          · simp
+      · simp [hu]
+    · rw [evalSum_denAtomsBy_one]
+      by_cases hu : u c = true
+      · rcases h hu with rfl | rfl
+        · simp only [hu, if_true]
+          split_ifs with h1
+          · have h2 : (1 : K) * e.get (Var.m k) = (-1) * e.get (Var.m k) :=
+              congrArg (· * e.get (Var.m k)) h1
+            simpa using h2
+          · simp
+        · simp [hu]
+      · simp [hu]
+
+/-- **C04.12b** (`term_value`): for EVERY field element `c` — zero, one, minus one, a unit-modulus
+non-real number, anything — the (special-cased) summand generated for a numerator coefficient has
+the value `c·d_k` and the one for a feedback coefficient `−c·m_k`. -/
+theorem term_value (c : K) (e : Env K) (k : Nat) :
+    evalSum e (numAtoms k [c]) = c * e.get (.d k)
+    ∧ evalSum e (denAtoms k [c]) = -(c * e.get (.m k)) := by
+  have h := (unit_test_sound_iff (isPlusMinusOne (α := K)) c).2 (by
+    intro hu
+    simpa [isPlusMinusOne] using hu)
+  rw [← numAtomsBy_code, ← denAtomsBy_code]
+  exact ⟨h.1 e k, h.2 e k⟩
+
+/-- **C04.12c** (`coefficient_is_multiplied`): a coefficient other than 1, −1, 0 is written as a
+product, whatever its modulus. -/
+theorem coefficient_is_multiplied (c : K) (h1 : c ≠ 1) (hm : c ≠ -1) (h0 : c ≠ 0) (k : Nat) :
+    numAtoms k [c] = [Atom.mul c (.d k)] ∧ denAtoms k [c] = [Atom.negMul c (.m k)] := by
+  simp [numAtoms, denAtoms, h1, hm, h0]
+
+/-- **C04.12d** (`special_cases_neutral`): the special cases of `__call__` (coefficient 1 / −1 / 0,
+gain 1 / −1) are semantically neutral: the generated loop yields what the loop WITHOUT any special
+case (`compilePlain`: every coefficient a product, the gain always a division) yields — for every
+field, every coefficient list, memory and input (the all-zero filter yields the zero value, C04.3). -/
+theorem special_cases_neutral (b as : List K) (a0 zero : K) (mem xs : List K)
+    (hmem : mem.length = as.length)
+    (hnz : ¬ ((∀ c ∈ b, c = 0) ∧ (∀ c ∈ as, c = 0))) :
+    evalIR (compile b (a0 :: as) zero) mem zero xs = evalIR (compilePlain b (a0 :: as)) mem zero xs := by
+  rw [filter_eq_spec b as a0 zero mem xs hmem hnz, compilePlain_eq_fspec b as a0 zero mem xs hmem]
+
+/-- … with zero value 0 without exception -/
+theorem special_cases_neutral_zero (b as : List K) (a0 : K) (mem xs : List K)
+    (hmem : mem.length = as.length) :
+    evalIR (compile b (a0 :: as) 0) mem 0 xs = evalIR (compilePlain b (a0 :: as)) mem 0 xs := by
+  rw [filter_eq_spec_zero b as a0 mem xs hmem, compilePlain_eq_fspec b as a0 0 mem xs hmem]
+
+/-- the open-test compiler instantiated with the code's test is the model of the code -/
+theorem compileBy_is_compile (b a : List K) (zero : K) :
+    compileBy isPlusMinusOne b a zero = compile b a zero := compileBy_code b a zero
+
+/-- **C04.12e** (`gauss_filterCall_eq_specCall`): the very instance the driver EXECUTES for complex
+coefficients and samples — `filterCall` / `specCall` over the executable Gaussian rationals with the
+model's own `+ * - /` — is covered by C04.10 (ℚ(i) is a field, `Lemmas/C12Gauss`). -/
+theorem gauss_filterCall_eq_specCall (n d : List (Int × GRat)) (mem : Mem GRat) (zero : GRat)
+    (xs : List GRat) : gaussFilterCall n d mem zero xs = gaussSpecCall n d mem zero xs :=
+  filterCall_eq_specCall n d mem zero xs
+
+/-- **C04.12f** (`gauss_run_is_complex_run`): what the generated loop computes over ℚ(i) is, under
+the embedding ℚ(i) → ℂ, the solution of the difference equation over the complex numbers. -/
+theorem gauss_run_is_complex_run (b as : List GRat) (a0 zero : GRat) (mem xs : List GRat)
+    (hmem : mem.length = as.length)
+    (hnz : ¬ ((∀ c ∈ b, c = 0) ∧ (∀ c ∈ as, c = 0))) :
+    (gaussEval b (a0 :: as) zero mem xs).map ALV.C12.GRat.toC
+      = fspec (b.map ALV.C12.GRat.toC) (as.map ALV.C12.GRat.toC) (ALV.C12.GRat.toC a0)
+          (ALV.C12.GRat.toC zero) (mem.map ALV.C12.GRat.toC) [] (xs.map ALV.C12.GRat.toC) := by
+  have h := filter_eq_spec b as a0 zero mem xs hmem hnz
+  have h2 := fspec_hom ALV.C12.GRat.toCHom b as a0 zero mem [] xs
+  have hco : (⇑ALV.C12.GRat.toCHom : GRat → ℂ) = ALV.C12.GRat.toC := rfl
+  simp only [hco, List.map_nil, ALV.C12.GRat.toCHom_apply] at h2
+  unfold gaussEval
+  rw [← h2, ← h]
+
+/-- **C04.12g** (`filterCallD_eq_specCallD`): call shapes — `ZFilter(num)` (denominator omitted),
+`filt(seq)` (memory and zero omitted), any subset given: as coded = the contract with the documented
+defaults (denominator 1, no memory, zero value 0). -/
+theorem filterCallD_eq_specCallD (n : List (Int × K)) (d : Option (List (Int × K)))
+    (mem : Option (Mem K)) (zero : Option K) (xs : List K) :
+    filterCallD n d mem zero xs = specCallD n d mem zero xs := by
+  cases d <;> cases mem <;> cases zero <;> exact filterCall_eq_specCall _ _ _ _ _
+
+/-- the omitted arguments are exactly `{0: 1}`, `None`, `0` -/
+theorem call_defaults (n : List (Int × K)) (xs : List K) :
+    filterCallD n none none none xs = filterCall n [(0, 1)] Mem.none 0 xs := rfl
+
+example : unitModulus gi = true ∧ gi ≠ 1 ∧ gi ≠ -1 ∧ gi ≠ 0 := by decide +kernel
+example : ¬ (unitModulus gi = true → gi = 1 ∨ gi = -1) := by decide +kernel
+example := coefficient_is_multiplied gi (by decide +kernel) (by decide +kernel) (by decide +kernel) 3
+/-- the complex one-pole oscillator `1 / (1 - 1j * z ** -1)` on a step -/
+example : gaussEval [1] [1, -gi] 0 [0] [1, 1, 1, 1, 1] = [1, ⟨1, 1⟩, gi, 0, 1] := by decide +kernel
+/-- `ZFilter([1j, 2])([1, 2, -3])`: as coded, and with the unit test `abs(coeff) == 1` -/
+example : gaussEval [gi, 2] [1] 0 [] [1, 2, -3] = [gi, ⟨2, 2⟩, ⟨4, -3⟩] := by decide +kernel
+example : gaussEvalBy unitModulus [gi, 2] [1] 0 [] [1, 2, -3] = [-1, 0, 7] := by decide +kernel
+example : gaussFilterCall [(0, gi), (1, 2)] [(0, 1)] Mem.none 0 [1, 2, -3] = .ok [gi, ⟨2, 2⟩, ⟨4, -3⟩] := by
+  decide +kernel
+example : gaussSpecCall [(0, 1)] [(0, 1), (1, gi)] (Mem.iter [gi]) 0 [1, ⟨2, 0⟩] = .ok [⟨2, 0⟩, ⟨2, -2⟩] := by
+  decide +kernel
+example := gauss_run_is_complex_run [gi, 2] [-gi] 1 0 [3] [1, 2, -3] rfl (by decide +kernel)
+example := special_cases_neutral [(1 : ℚ), -1, 0, 3] [1, -1, 0, 5] 2 7 [1, 2, 3, 4] [2, 4, 6] rfl (by simp)
+example : filterCallD [((0 : Int), (2 : Rat)), (1, 1)] none none none [1, 2] = .ok [2, 5] := by decide +kernel
+
+/-! ### C04.13 filter objects whose polynomials were assigned: the `a[0] == 0` branch -/
+
+/-- **C04.13a** (`zero_gain_refuses`): a causal filter object whose denominator has no (or a zero)
+delay-0 coefficient — possible only when the polynomials were assigned to the object, `__init__`
+never leaves one — refuses to run: ZeroDivisionError "Invalid filter gain". -/
+theorem zero_gain_refuses (num den : Terms K) (mem : Mem K) (zero : K) (xs : List K)
+    (hc : ∀ kv ∈ num ++ den, 0 ≤ kv.1) (h0 : coefAt den 0 = 0) :
+    call num den mem zero xs = .error .zeroDivision := by
+  have hcausal : checkCausal num den = true := by
+    simp only [checkCausal, Bool.not_eq_true', List.any_eq_false]
+    intro kv hm
+    have := hc kv hm
+    simp; omega
+  simp [call, hcausal, h0]
+
+/-- **C04.13b** (`callRaw_eq_specCallRaw`): a filter object whose `numpoly` / `denpoly` were assigned
+(any dictionaries: no normalisation happened): negative delay ⇒ ValueError, else `a[0] = 0` ⇒
+ZeroDivisionError, else the difference equation of the contract. -/
+theorem callRaw_eq_specCallRaw (n d : List (Int × K)) (mem : Mem K) (zero : K) (xs : List K) :
+    callRaw n d mem zero xs = specCallRaw n d mem zero xs := by
+  unfold callRaw specCallRaw
+  have hmem : ∀ (p : List (Int × K)) (kv : Int × K), kv ∈ mkPoly p → kv.1 ∈ keysNZ p := by
+    intro p kv hkv
+    exact (mem_keys_mkPoly p kv.1).1 (List.mem_map.2 ⟨kv, hkv, rfl⟩)
+  by_cases hany : (keysNZ n ++ keysNZ d).any (fun k => decide (k < 0)) = true
+  · simp only [hany, if_true]
+    obtain ⟨k, hk, hlt⟩ := List.any_eq_true.1 hany
+    have hlt' : k < 0 := by simpa using hlt
+    apply noncausal
+    rcases List.mem_append.1 hk with h | h
+    · obtain ⟨kv, hkv, hkk⟩ := List.mem_map.1 ((mem_keys_mkPoly n k).2 h)
+      exact ⟨kv, List.mem_append.2 (Or.inl hkv), by rw [hkk]; exact hlt'⟩
+    · obtain ⟨kv, hkv, hkk⟩ := List.mem_map.1 ((mem_keys_mkPoly d k).2 h)
+      exact ⟨kv, List.mem_append.2 (Or.inr hkv), by rw [hkk]; exact hlt'⟩
+  · simp only [hany, Bool.false_eq_true, if_false]
+    have hcausal : ∀ kv ∈ mkPoly n ++ mkPoly d, 0 ≤ kv.1 := by
+      intro kv hkv
+      have hk : kv.1 ∈ keysNZ n ++ keysNZ d := by
+        rcases List.mem_append.1 hkv with h | h
+        · exact List.mem_append.2 (Or.inl (hmem n kv h))
+        · exact List.mem_append.2 (Or.inr (hmem d kv h))
+      have : ¬ (kv.1 < 0) := by
+        intro hlt
+        exact hany (List.any_eq_true.2 ⟨kv.1, hk, by simpa using hlt⟩)
+      omega
+    by_cases h0 : coefLast d 0 = 0
+    · simp only [h0, if_true]
+      exact zero_gain_refuses _ _ _ _ _ hcausal (by rw [coefAt_mkPoly]; exact h0)
+    · simp only [h0, if_false]
+      rw [← filterCall_eq_specCall]
+      have h0mem : (0 : Int) ∈ keysNZ d := (mem_keysNZ_iff d 0).2 h0
+      have hmin : minKey (mkPoly d) = some 0 := by
+        rw [minKey_mkPoly]
+        rcases listMin_spec (keysNZ d) with ⟨_, h2⟩ | ⟨q, h1, h2, h3⟩
+        · rw [h2] at h0mem; simp at h0mem
+        · rw [h1]
+          have hq0 : q ≤ 0 := h3 0 h0mem
+          have hq : ¬ (q < 0) := by
+            intro hlt
+            exact hany (List.any_eq_true.2 ⟨q, List.mem_append.2 (Or.inr h2), by simpa using hlt⟩)
+          congr 1; omega
+      unfold filterCall
+      rw [normalise_ok _ _ 0 hmin]
+      rw [shiftKeys_zero, shiftKeys_zero]
+      rfl
+
+example : callRaw [((0 : Int), (1 : Rat))] [(1, 1)] Mem.none 0 [1, 2] = .error .zeroDivision := by decide +kernel
+example : callRaw [((0 : Int), (1 : Rat))] [(0, 0), (1, 1)] Mem.none 0 [1, 2] = .error .zeroDivision := by decide +kernel
+example : callRaw [((-1 : Int), (1 : Rat))] [(1, 1)] Mem.none 0 [1, 2] = .error .valueError := by decide +kernel
+example : specCallRaw [((1 : Int), (1 : Rat))] [(0, 2), (1, 1)] Mem.none 0 [1, 2] = .ok [0, 1/2] := by decide +kernel
+example := zero_gain_refuses [((0 : Int), (1 : ℚ))] [(1, 1)] Mem.none 0 [1] (by simp) (by decide +kernel)
 end ALV.Props.C04
 
 #write_audit "C04"
